@@ -68,6 +68,9 @@ class PiConfig(SSEConfig):
                                      "ske"],
                                     config_dict)
 
+        # l_i and l'_i are the first param_l / param_l_prime bytes cut from F(K, w): they must not be empty
+        SSEConfig.check_param_positive_int(["param_l", "param_l_prime"], config_dict)
+
         self.param_lambda = config_dict.get("param_lambda")
         self.param_k = config_dict.get("param_k")
         self.param_k_prime = config_dict.get("param_k_prime")
